@@ -332,7 +332,32 @@ class FT:
         if not k: fail(node, "compare op")
         return "(%s %s %s)" % (self.op(k), a, b)
 
+    def type_test(self, n):
+        """type(x) in (list, tuple) / type(x) == float / type(x) is int: exact-type tests
+        (bool is not int, datetime is not date)"""
+        l = n.left
+        if not (len(n.ops) == 1 and isinstance(l, ast.Call) and isinstance(l.func, ast.Name) and l.func.id == "type"
+                and "type" not in self.locals and len(l.args) == 1 and not l.keywords):
+            return None
+        op, rhs = n.ops[0], n.comparators[0]
+        if isinstance(op, (ast.In, ast.NotIn)) and isinstance(rhs, (ast.Tuple, ast.List)): tys = rhs.elts
+        elif isinstance(op, (ast.Eq, ast.NotEq, ast.Is, ast.IsNot)): tys = [rhs]
+        else: return None
+        tags = [t for e in tys for t in self.tytags(e)]
+        v = self.fresh("ty")
+        test = "(isinstance %s [%s])" % (v, "; ".join(tags))
+        excl = []
+        if "TInt" in tags and "TBool" not in tags: excl.append("TBool")
+        if "(TCls cDate)" in tags and "(TCls cDateTime)" not in tags: excl.append("(TCls cDateTime)")
+        if excl:
+            test = "(py_and fo %s (fun _ => py_not fo (isinstance %s [%s])))" % (test, v, "; ".join(excl))
+        if isinstance(op, (ast.NotIn, ast.NotEq, ast.IsNot)):
+            test = "(bind %s (py_not fo))" % test
+        return "(bind %s (fun %s => %s))" % (self.expr(l.args[0]), v, test)
+
     def e_Compare(self, n):
+        tt = self.type_test(n)
+        if tt is not None: return tt
         if len(n.ops) == 1:
             return self.cmp1(n.ops[0], self.expr(n.left), self.expr(n.comparators[0]), n)
         # a < b < c : bind the middle operands once
@@ -997,7 +1022,7 @@ BIN_DUNDER = {  # kind -> (left dunder, reflected dunder, numeric base)
     "le": ("__le__", "__ge__", "num_le fo"), "ge": ("__ge__", "__le__", "num_ge fo"),
     "eq": ("__eq__", "__eq__", "base_eq fo"), "ne": ("__ne__", "__ne__", "base_ne fo"),
 }
-UN_DUNDER = {"neg": ("__neg__", "num_neg fo"), "pos": ("__pos__", "num_pos fo"),
+UN_DUNDER = {"neg": ("__neg__", "num_neg fo"), "pos": ("__pos__", "num_pos"),
              "abs": ("__abs__", "num_abs fo"), "float": ("__float__", "num_float fo"),
              "int": ("__int__", "num_int fo")}
 OVERRIDES = {"Epoch.utc2local": "(VErr Unsupported)"}
